@@ -15,7 +15,7 @@ func init() {
 		Run: c16,
 		Level: "Structural necessary conditions of a well-formed catalogue: identifier counters are only ever incremented (or restored from a snapshot); every entity identifier is taken from its counter in the function that increments it (frozen copy/restore exceptions); group slices are re-sorted after every append before the function returns; " +
 			"the end-of-time clamp of shard and index groups is the half-open bound MaxNanoTime+1 at all sibling sites; in the catalogue methods reachable from the apply handlers no error is returned after shared state was modified (frozen, individually triaged exceptions). " +
-			"NOT decided: disjointness and duration alignment of group spans (timestamp arithmetic), validity of cross-object references.",
+			"the shard-group lookup behind 'creation is a no-op' scans every group and answers only with a live group that contains the timestamp; per-name version counters are never deleted; NOT decided: disjointness and duration alignment of group spans (timestamp arithmetic), validity of cross-object references.",
 		Assumptions: append([]string{"effect analysis is intraprocedural with transitive mutator summaries over static calls; aliases are tracked through local definitions only"}, commonAssumptions...),
 		Technique:   "static analysis: who-may-write tables, definition provenance, post-dominance pairing on go/cfg, effect (mutation) analysis with must-not-follow error returns",
 		Rules:       "C16.R1 R2 R3 R4 R5 R6",
@@ -500,6 +500,15 @@ func init() {
 //       it is what keeps a re-created name from being handed out twice.
 func c16lookupAndVersions(c *an.Ctx) {
 	const M = metaPkg
+	{
+		r := c.Rule("C16.R1", "K-PREDSHAPE", M+": IndexGroupInfo.Contains / Overlaps are the half-open span tests (same shape as the shard-group ones)")
+		if f := fn(r, M+":IndexGroupInfo.Contains"); f != nil {
+			f.PredShape(r, 0, "!`p0<recv.StartTime` & `p0<recv.EndTime`", "Contains ⇔ start ≤ t < end")
+		}
+		if f := fn(r, M+":IndexGroupInfo.Overlaps"); f != nil {
+			f.PredShape(r, 0, "!`p1<recv.StartTime` & `p0<recv.EndTime`", "Overlaps(min,max) ⇔ start ≤ max ∧ min < end")
+		}
+	}
 	r := c.Rule("C16.R5", "K-LOOPSELECT+K-GUARD", M+":(*RetentionPolicyInfo).ShardGroupByTimestampAndEngineType scans every group and returns only a group that contains the timestamp")
 	if f := fn(r, M+":RetentionPolicyInfo.ShardGroupByTimestampAndEngineType"); f != nil {
 		found := f.Find(an.MReturn("of a group", func(g *an.Fn, rs *ast.ReturnStmt) bool {
